@@ -36,6 +36,10 @@ int vorbis_synthesis(vorbis_block *vb,ogg_packet *op){
 
   /* first things first.  Make sure decode is ready */
   _vorbis_block_ripcord(vb);
+  /* the block-local storage is gone: a block that is refused below must
+     not keep pointing into it (a later blockin would read freed memory) */
+  vb->pcm=NULL;
+  vb->pcmend=0;
   oggpack_readinit(opb,op->packet,op->bytes);
 
   /* Check the packet type */
@@ -100,6 +104,8 @@ int vorbis_synthesis_trackonly(vorbis_block *vb,ogg_packet *op){
 
   /* first things first.  Make sure decode is ready */
   _vorbis_block_ripcord(vb);
+  vb->pcm=NULL; /* as above: nothing may point into the released storage */
+  vb->pcmend=0;
   oggpack_readinit(opb,op->packet,op->bytes);
 
   /* Check the packet type */
